@@ -7,7 +7,7 @@ import Driver.StoreDrv
     backend lru <cache_size> <max_messages_per_group>        → ok
     <op line of the store engine> ## <what the implementation answered>
 
-  The model is nondeterministic in two places (map iteration order, see Model/MemLru.lean); the driver keeps
+  The model is nondeterministic in one place (map iteration order of a restore, see Model/MemLru.lean); the driver keeps
   every state the model allows that is consistent with the implementation's answers so far.  For every line
   it prints `<answer>\t<candidates> <evictions>`: the implementation's answer if some candidate gives it
   (the candidates that do not are dropped), otherwise the first candidate's answer (a correspondence failure).
